@@ -8,7 +8,7 @@ ALLOWED_AXIOMS = {"Classical_Prop.classic", "ClassicalDedekindReals.sig_not_dec"
                   "ClassicalDedekindReals.sig_forall_dec",
                   "FunctionalExtensionality.functional_extensionality_dep"}
 MANIFEST = {
-    "text": 'Coq theorems over the broker model: one update request gives a subscriber at most one message, non-empty, with exactly the changed-and-subscribed fields and the committed values; nothing watched (rejected, foreign, repeated on-change) means no message; a lagging reader gets the oldest retained message, never older than its position, among the newest cap >= buffer_size+1; a subscription is unregistered only when its receiver is gone or its token expired (or at shutdown). Tied to the code by histories with subscribe (every buffer-size class), eager/lazy/never readers, stream drops, housekeeping (hook H3) and shutdown, comparing whole message sequences. Second part: the same through the gRPC handlers - kuksa.val.v1 Subscribe (leaf / branch path, field set) and kuksa.val.v2 Subscribe / SubscribeById (every buffer_size class) called as trait methods, their proto streams read back into the core message form, modelled by Api.v1_subscribe / Api.v2_subscribe (theorems c07_v2_subscribe_is_core, c07_refused_handler_subscription_no_effect) and judged by the same clauses.',
+    "text": 'Coq theorems over the broker model: one update request gives a subscriber at most one message, non-empty, with exactly the changed-and-subscribed fields and the committed values; nothing watched (rejected, foreign, repeated on-change) means no message; a lagging reader gets the oldest retained message, never older than its position, among the newest cap >= buffer_size+1; a subscription is unregistered only when its receiver is gone or its token expired (or at shutdown). Tied to the code by histories with subscribe (every buffer-size class), eager/lazy/never readers, stream drops, housekeeping (hook H3) and shutdown, comparing whole message sequences. Second part: the same through the gRPC handlers - kuksa.val.v1 Subscribe (leaf / branch path, field set) and kuksa.val.v2 Subscribe / SubscribeById (every buffer_size class) called as trait methods, their proto streams read back into the core message form, modelled by Api.v1_subscribe / Api.v2_subscribe (theorems c07_v2_subscribe_is_core, c07_refused_handler_subscription_no_effect) and judged by the same clauses. Third part: change subscriptions opened over the VISS websocket, judged by the same clauses. Theorem c07_v1_multi_entry_union: a signal selected by several entries of one kuksa.val.v1 Subscribe request is subscribed with the union of their fields.',
     "note": "Trusted: Coq kernel; the 4 standard-library axioms that enter through Flocq (used by validate's float comparisons) as printed by Print Assumptions; extraction + OCaml driver (vm_compute cross-check each run); harness/src/fam_hist.rs and hook H3 (verif_housekeeping_step); the Python monitors. Modelled, not verified: tokio broadcast (ring with capacity rounded up to a power of two, Lagged skipping) and RwLock, HashMap iteration order (outputs are sorted), the gRPC handlers on top of AuthorizedAccess (exercised by the handler-level checks), SystemTime (a timestamp is canonicalised to the operation during which it was taken; expiry is crossed in real time at a TICK).",
 }
 PROPS = set("C07,C03".split(","))
